@@ -19,7 +19,7 @@ import traceback
 
 from . import refmodel, schemagen as sg
 from .schemajson import schema_from_json
-from .simfs import HarnessError
+from .simfs import REPO, HarnessError
 
 
 def wal(msg: str) -> None:
@@ -180,7 +180,7 @@ class Fleet:
     def build(self):
         import bitproto  # noqa
 
-        if not (bitproto.__file__ or "").startswith("/repo/"):
+        if not (bitproto.__file__ or "").startswith(REPO + "/"):
             raise HarnessError("bitproto imported from %r" % bitproto.__file__)
         from bitproto.parser import parse
         from bitproto.renderer import render
